@@ -190,9 +190,14 @@ func (e *Engine) heapHavocFresh(st *State, key string, allocBefore string) {
 	n := e.c.fresh(hi.base, hi.sort)
 	st.heap[key] = n
 	if strings.HasPrefix(hi.sort, "(Array Int ") {
-		e.assume(st, fmt.Sprintf("(forall ((r!q Int)) (! (=> (<= r!q %s) (= (select %s r!q) (select %s r!q))) :pattern ((select %s r!q))))", allocBefore, n, old, n))
+		e.assume(st, fmt.Sprintf("(forall ((r!q Int)) (! (=> (<= r!q %s) (= (select %s r!q) (select %s r!q))) :pattern ((select %s r!q)) :pattern ((select %s r!q))))", allocBefore, n, old, n, old))
 	}
-	e.trackWrite(key, "")
+	// for enclosing trackers this is still a write to fresh objects only
+	for _, t := range e.tracks {
+		if _, ok := t.keys[key]; !ok {
+			t.keys[key] = true
+		}
+	}
 }
 
 // key constructors (register on the fly)
@@ -204,6 +209,20 @@ func (e *Engine) keyField(s types.Type, i int) string {
 		e.regHeap(k, arrSort(SInt, l.Sort), "H_"+shortTypeName(s)+"_"+leafSuffix(l), "H", l.T)
 	}
 	return k
+}
+
+// keyElemOf: the content array of slice/array `arr`: arrays stored in fields declared immutable live in a separate
+// heap that lock acquisitions never havoc (their contents are a snapshot taken when the field was written).
+func (e *Engine) keyElemOf(t types.Type, i int, arr string) string {
+	if e.immArr[arr] {
+		k := fmt.Sprintf("Aimm|%s|%d", typeKey(t), i)
+		if _, ok := e.heapInfo[k]; !ok {
+			l := e.fl.leaves(t)[i]
+			e.regHeap(k, arrSort(SInt, arrSort(SInt, l.Sort)), "Aimm_"+shortTypeName(t)+"_"+leafSuffix(l), "A", l.T)
+		}
+		return k
+	}
+	return e.keyElem(t, i)
 }
 
 func (e *Engine) keyElem(t types.Type, i int) string {
@@ -408,7 +427,7 @@ func (e *Engine) loadLoc(st *State, loc *Loc) []string {
 		}
 	case LElem:
 		for i := loc.Lo; i < loc.Hi; i++ {
-			out = append(out, sel(sel(e.heapGet(st, e.keyElem(loc.Root, i)), loc.Arr), loc.Idx))
+			out = append(out, sel(sel(e.heapGet(st, e.keyElemOf(loc.Root, i, loc.Arr)), loc.Arr), loc.Idx))
 		}
 	case LGlobal:
 		for i := loc.Lo; i < loc.Hi; i++ {
@@ -451,6 +470,9 @@ func (e *Engine) storeLoc(st *State, loc *Loc, leaves []string) {
 		}
 	case LElem:
 		for i := loc.Lo; i < loc.Hi; i++ {
+			if e.immArr[loc.Arr] {
+				e.outsideSubset("write to the contents of a slice stored in an immutable field")
+			}
 			k := e.keyElem(loc.Root, i)
 			h := e.heapGet(st, k)
 			e.heapWrite(st, k, store(h, loc.Arr, store(sel(h, loc.Arr), loc.Idx, leaves[i-loc.Lo])), loc.Arr)
